@@ -849,14 +849,24 @@ def _run_slow(ctx, sp, modname, alias, reps, configs, ks):
         return _summ(ra, sp, False), _summ(rb, sp, False)
 
     def calibrate():
-        p = Pair(sp, RemoteAssertionTraceObserver, 20, 10)
-        t = H.mk_test([f"var_0 = {alias}.parity(3)"])
-        t0 = _t.monotonic()
-        p.sub.execute(t)
-        return _t.monotonic() - t0
+        """Machine load, measured WITHOUT the code under test: the latency of forking this (large) process and reaping a child that
+        exits at once, plus a fixed busy loop - what a trivial subprocess execution costs at least.  (Timing the subprocess
+        executor itself would let a defect of that executor pass for an overloaded machine.)"""
+        worst = 0.0
+        for _ in range(3):
+            t0 = _t.monotonic()
+            pid = os.fork()
+            if pid == 0:
+                os._exit(0)
+            os.waitpid(pid, 0)
+            n = 0
+            for i in range(200_000):
+                n += i
+            worst = max(worst, _t.monotonic() - t0)
+        return worst
 
     cal = calibrate()
-    ctx.extra.setdefault("calibration_trivial_subprocess_execution_s", []).append(round(cal, 2))
+    ctx.extra.setdefault("calibration_fork_and_busy_loop_s", []).append(round(cal, 2))
     for _rep in range(reps):
         for lines, cfg, kind, runtime, allowed in _slow_cases(alias, configs, ks):
             t = H.mk_test(lines)
@@ -886,7 +896,7 @@ def _run_slow(ctx, sp, modname, alias, reps, configs, ks):
             cal2 = calibrate()
             if max(cal, cal2) > float(os.environ.get("C31_OVERLOAD_S", "0.4")):  # (the self-test raises it to see the witness path)
                 ctx.anomaly("slow-test-disagreement-on-overloaded-machine")
-                ctx.inconclusive_because(f"slow test disagreed 3/3 but a trivial subprocess execution takes {max(cal, cal2):.2f}s (machine overloaded)")
+                ctx.inconclusive_because(f"slow test disagreed 3/3 but forking and reaping a trivial child takes {max(cal, cal2):.2f}s (machine overloaded)")
                 continue
             case = {"module": modname, "test": lines, "config": {"maximum_test_execution_timeout": cfg[0], "test_execution_time_per_statement": cfg[1]},
                     "planned_runtime_s": round(runtime, 2), "allowed_s": allowed, "in_process": {k: sa[k] for k in ("timeout", "exc")},
